@@ -1,4 +1,5 @@
 import CssVerif.Model.Num
+import CssVerif.Model.NumTok
 /-!
 # IEEE-754 binary64 layer of the number model (C18)
 
